@@ -120,6 +120,8 @@ def jobs_for(pid, tier, seed):
                       ctl=('resize',), resize_targets=(0, 1, 2), max_ctl=2, cancel=False, take=False, lifo=False))
         J.append(mfam('a waiter holds an assigned permit across a shrink and a grow: no capacity is lost (max_size 1)', ['C02'], 6 if q else 8, tasks=2, max_size_concrete=1, prefix=(('get', 'T1', 0), ('get', 'T2', 0)),
                       env={'create': ('ok',), 'recycle': ('ok',)}, ctl=('resize',), resize_targets=(0, 1), max_ctl=2, cancel=False, take=False, lifo=False))
+        J.append(mfam('thread level: retain racing get / take / return (window between status() and the lock), capacity probe', ['C02'], 10 if q else 14, tasks=2, env={'create': ('ok',), 'recycle': ('ok',)},
+                      thread_mode=True, prefix=(('get', 'T1', 0),), ctl=('retain',), max_ctl=1, cancel=False, lifo=False, max_gets=1, max_size_concrete=2, probe=True, probe_rounds=2))
         J.append(mfam('thread level: take / return / get racing on a full pool (3 threads)', ['C02'], 16 if q else 20, tasks=3, env={'create': ('ok',), 'recycle': ('ok',)},
                       thread_mode=True, prefix=(('get', 'T1', 0), ('get', 'T3', 0)), cancel=False, lifo=False, max_gets=1, max_size_concrete=2))
         J.append(mfam('thread level: failing get / return racing (2 threads)', ['C02'], 14 if q else 18, tasks=2, env={'create': ('ok', 'err'), 'recycle': ('ok', 'err')},
@@ -131,6 +133,8 @@ def jobs_for(pid, tier, seed):
         J.append(mfam('1 task, 6 hooks, ok/pending/panic', ['C03'], 5 if q else 7, tasks=1, hooks=H6, env={'create': ('ok', 'pending', 'panic'), 'recycle': ('ok', 'pending', 'panic'), 'hook': ('ok', 'pending', 'panic')}, take=False, probe=False))
         J.append(mfam('1 task, enclosing per-call timeouts fire at every await', ['C03'], 5 if q else 8, tasks=1, hooks=H3A, env={'create': OEPS, 'recycle': OEPS, 'hook': OEPS},
                       timeout_variants=[('pos', 'pos', 'pos')], take=False, probe=False))
+        J.append(mfam('a get() that owns an object is abandoned after close() / resize(0) ran meanwhile', ['C03'], 6 if q else 8, tasks=1, hooks=(('post_create', 'async'), ('pre_recycle', 'async')),
+                      env={'create': ('ok', 'pending'), 'recycle': ('ok', 'pending'), 'hook': ('ok', 'pending', 'panic')}, ctl=('close', 'resize'), resize_targets=(0,), max_ctl=1, take=False, probe=False))
         J.append(mfam('2 tasks, waiter + cancel, global invariants', ['C03', 'C01', 'C02', 'C11'], 5 if q else 7, tasks=2, hooks=(('pre_recycle', 'async'),), env={'create': OEP, 'recycle': OEP, 'hook': ('ok', 'pending')}, take=False))
     elif pid == 'C04':
         E = {'create': OE, 'recycle': OE, 'hook': OE}
@@ -171,11 +175,13 @@ def jobs_for(pid, tier, seed):
                       cancel=False, take=False, probe=False))
         J.append(mfam('task level: close / resize while a get() is suspended in create / recycle', ['C09'], 5 if q else 7, tasks=2, env={'create': ('ok', 'pending'), 'recycle': ('ok', 'pending')},
                       ctl=('close', 'resize', 'status'), resize_targets=(0, 1), max_ctl=2, probe=False, take=False, cancel=False))
-        J.append(mfam('3 tasks + retain, capacity probe', ['C09', 'C02'], 5 if q else 7, tasks=3, env={'create': ('ok',), 'recycle': ('ok',)}, ctl=('retain',), max_ctl=1, cancel=False, lifo=False))
+        J.append(mfam('3 tasks + retain, capacity probe', ['C09'], 5 if q else 7, tasks=3, env={'create': ('ok',), 'recycle': ('ok',)}, ctl=('retain',), max_ctl=1, cancel=False, lifo=False))
         J.append(mfam('2 tasks + retain/resize/close: detach exactly once', ['C09'], 5 if q else 7, tasks=2, env=E, ctl=('retain', 'resize', 'close'), resize_targets=(0, 1), max_ctl=2, probe=False))
         J.append(mfam('2 tasks, hooks reject, cancel: detach exactly once', ['C09'], 5 if q else 7, tasks=2, hooks=H3, env={'create': OEP, 'recycle': OEP, 'hook': OEP}, probe=False))
         J.append(mfam('2 tasks + repeated retain (stateful predicates)', ['C09', 'C11'], 5 if q else 7, tasks=2, env={'create': ('ok',), 'recycle': ('ok',), 'pred': ('keep', 'remove')}, ctl=('retain',), max_ctl=3, cancel=False, take=False, probe=False, lifo=False))
         J.append(mfam('2 tasks + resize, take/return of surplus objects, capacity probe', ['C09'], 5 if q else 7, tasks=2, env={'create': ('ok',), 'recycle': ('ok',)}, ctl=('resize',), resize_targets=(1, 2), max_ctl=1, cancel=False, lifo=False))
+        J.append(mfam('thread level: retain racing get / take / return (window between status() and the lock), capacity probe', ['C09'], 10 if q else 14, tasks=2, env={'create': ('ok',), 'recycle': ('ok',)},
+                      thread_mode=True, prefix=(('get', 'T1', 0),), ctl=('retain',), max_ctl=1, cancel=False, lifo=False, max_gets=1, max_size_concrete=2, probe=True, probe_rounds=2))
         J.append(mfam('thread level: take racing get and return (full pool)', ['C09', 'C02', 'C01'], 12 if q else 16, tasks=3, env={'create': ('ok',), 'recycle': ('ok',)},
                       thread_mode=True, prefix=(('get', 'T1', 0), ('get', 'T2', 0)), cancel=False, lifo=False, max_gets=1, max_size_bound=2))
     elif pid == 'C10':
@@ -256,6 +262,8 @@ def jobs_for(pid, tier, seed):
         J.append(mfam('2 tasks + retain, fifo+lifo', ['C08'], 6 if q else 8, tasks=2, env={'create': ('ok',), 'recycle': OE}, ctl=('retain',), cancel=False, probe=False))
         J.append(mfam('2 tasks, 3 hooks, ok/err', ['C08'], 5 if q else 7, tasks=2, hooks=H3, env={'create': OE, 'recycle': OE, 'hook': OE}, probe=False))
         J.append(mfam('2 tasks + resize/close: user code only inside operations', ['C08'], 5 if q else 7, tasks=2, env={'create': OE, 'recycle': OE}, ctl=('resize', 'close', 'status'), probe=False))
+        J.append(mfam('2 tasks: an object returned while another get() is suspended in a recycle that is then rejected', ['C08'], 6 if q else 8, tasks=2, max_size_concrete=2,
+                      env={'create': ('ok',), 'recycle': ('ok', 'err', 'pending')}, cancel=False, take=False, probe=False))
         P3 = (('get', 'T1', 0), ('get', 'T2', 0), ('get', 'T3', 0))
         J.append(mfam('3 objects out, returned in any order, then gets with rejects (max_size 3)', ['C08'], 7 if q else 9, tasks=3, max_size_concrete=3, prefix=P3,
                       env={'create': ('ok',), 'recycle': OE}, cancel=False, take=False, probe=False))
@@ -293,6 +301,8 @@ def jobs_for(pid, tier, seed):
     if pid == 'C05':
         J.append(ufam('fine interleaving: two try_add / add racing on an empty pool (counters)', ['C05'], 34 if q else 40, tasks=2, ctor='new', get_variants=['try_get'], add_variants=['try_add'], max_adds=2, max_adds_task=1, max_gets=0,
                       thread_mode=True, fine=True, cancel=False, take=False))
+        J.append(ufam('fine interleaving: try_add racing try_get on an empty pool (permit and object published in two steps)', ['C05'], 40 if q else 50, tasks=2, ctor='new', max_size_concrete=1,
+                      get_variants=['try_get'], add_variants=['try_add'], max_adds=1, max_gets=2, thread_mode=True, fine=True, cancel=False, take=False, task_roles={'T1': ('add',), 'T2': ('get', 'drop')}))
         J.append(ufam('fine interleaving: try_add racing take (counters)', ['C05'], 34 if q else 40, tasks=2, ctor='from_vec', initial=1, prefix=(('uget', 'T1', 0),), get_variants=['try_get'], add_variants=['try_add'], max_adds=1, max_gets=1,
                       thread_mode=True, fine=True, cancel=False, task_roles={'T1': ('take',), 'T2': ('add',)}))
         J.append(ufam('fine interleaving: try_get / return / take / try_add by 2 threads', ['C05'], 14 if q else 18, tasks=2, ctor='from_vec', initial=1, get_variants=['try_get'], add_variants=['try_add'], max_adds=1,
@@ -308,6 +318,9 @@ def jobs_for(pid, tier, seed):
         J.append(mfam('fine interleaving: return / take racing a shrink (2 objects out): no capacity is lost', ['C02'], 30 if q else 40, tasks=2, max_size_concrete=2, prefix=(('get', 'T1', 0), ('get', 'T2', 0)), max_gets=1,
                       ctl=('resize',), resize_targets=(1,), max_ctl=1, thread_mode=True, fine=True, cancel=False, lifo=False, env={'create': ('ok',), 'recycle': ('ok',)}))
     if pid == 'C07':
+        J.append(mfam('fine interleaving: a grow and a shrink on two threads (1 object out)', ['C07'], 40 if q else 50, tasks=2, max_size_concrete=2, prefix=(('get', 'T1', 0),), max_gets=1,
+                      ctl=('resize',), resize_targets=(3,), max_ctl=1, task_ctl={'T2': (('resize', 0), ('resize', 1))}, cap_from_status=True, take=False,
+                      thread_mode=True, fine=True, cancel=False, lifo=False, env={'create': ('ok',), 'recycle': ('ok',)}))
         J.append(mfam('a waiter holds an assigned permit across a shrink and a grow (max_size 1)', ['C07'], 6 if q else 8, tasks=2, max_size_concrete=1, prefix=(('get', 'T1', 0), ('get', 'T2', 0)),
                       env={'create': ('ok',), 'recycle': ('ok',)}, ctl=('resize',), resize_targets=(0, 1), max_ctl=2, cancel=False, take=False, lifo=False))
         J.append(mfam('fine interleaving: return / take racing a shrink (2 objects out)', ['C07'], 30 if q else 40, tasks=2, max_size_concrete=2, prefix=(('get', 'T1', 0), ('get', 'T2', 0)), max_gets=1,
